@@ -113,6 +113,97 @@ inline Shape gen_shape(pbt::Source& src) {
     return sh;
 }
 
+//! 2^j - 1, 2^j, 2^j + 1 for j in jlo..jhi (zero bytes -> 2^jlo - 1)
+inline int pow2_edge(pbt::Source& src, int jlo, int jhi) {
+    int j = (int)src.range(jlo, jhi);
+    int d = (int)src.range(0, 2) - 1;
+    return (1 << j) + d;
+}
+
+// Scale classes (targets partition_scale / selection_scale): the same domain as gen_shape -- non-empty sorted
+// sequences -- sampled along the size dimensions the small generator does not reach:
+//   0 long+short   m = 2..8, ONE sequence of 1000..5000 elements (biased to 2^j-1, 2^j, 2^j+1, j = 10..12) next to
+//                  sequences of length 1 / 1..5 / 1..40
+//   1 many-short   m = 100..400 (biased to 127..129, 255..257) sequences of length 1..{1,3,10,40}
+//   2 several-long m = 1..16, every length drawn from {1, 2^j+-1 (j = 7..12), 1..5000, 1..64}
+//   3 big-N        m = 8..64 sequences of roughly equal length, total N = 20000..100000
+//   4 many-mid     m = 17..300 sequences of length 1..(20..300)
+// keys: 1..6 distinct / 1000 / about N/8 distinct / 2^20 (nearly unique), optionally staggered per sequence
+// (sequence i draws from [i*shift, i*shift + distinct)), so that whole sequences lie left or right of the split.
+// Lengths stay <= 32767 (Rec::pos is a short) and m <= 400 (Rec::seq).
+struct ScaleShape : Shape {
+    int cls = 0;
+    int stagger = 0;
+    uint64_t rank_seed = 0;
+};
+
+inline ScaleShape gen_shape_scale(pbt::Source& src) {
+    ScaleShape sh;
+    // selectors first
+    sh.cls = (int)src.weighted({4, 4, 4, 1, 2});
+    int dk = (int)src.range(0, 8);
+    int stride = src.boolean() ? 3 : 1;
+    sh.stagger = (int)src.weighted({5, 1, 1});
+    uint64_t seed = src.bits(4);
+    uint64_t s = seed * 0x9E3779B97F4A7C15ull + 77;
+    sh.rank_seed = seed ^ 0x5DEECE66Dull;
+    std::vector<int> lens;
+    switch (sh.cls) {
+    case 0: {
+        sh.m = (int)src.range(2, 8);
+        int where = (int)src.index((size_t)sh.m);
+        int L = src.boolean() ? (int)src.range(1000, 5000) : pow2_edge(src, 10, 12);
+        int shortmax = (int)src.weighted({2, 2, 1});
+        shortmax = shortmax == 0 ? 1 : shortmax == 1 ? 5 : 40;
+        for (int i = 0; i < sh.m; ++i) lens.push_back(i == where ? L : (int)src.range(1, shortmax));
+        break;
+    }
+    case 1: {
+        sh.m = src.boolean() ? (int)src.range(100, 400) : pow2_edge(src, 7, 8);
+        static const int ML[4] = {3, 1, 10, 40};
+        int maxl = ML[src.weighted({3, 1, 3, 2})];
+        for (int i = 0; i < sh.m; ++i) lens.push_back(1 + (int)(splitmix(s) % (uint64_t)maxl));
+        break;
+    }
+    case 2: {
+        sh.m = (int)src.range(1, 16);
+        for (int i = 0; i < sh.m; ++i) {
+            switch (src.weighted({2, 4, 3, 2})) {
+            case 0: lens.push_back(1); break;
+            case 1: lens.push_back(pow2_edge(src, 7, 12)); break;
+            case 2: lens.push_back((int)src.range(1, 5000)); break;
+            default: lens.push_back((int)src.range(1, 64)); break;
+            }
+        }
+        break;
+    }
+    case 3: {
+        sh.m = (int)src.range(8, 64);
+        int avg = 1000 * (int)src.range(20, 100) / sh.m;
+        for (int i = 0; i < sh.m; ++i) lens.push_back(avg / 2 + (int)(splitmix(s) % (uint64_t)(avg + 1)));
+        break;
+    }
+    default: {
+        sh.m = (int)src.range(17, 300);
+        int maxl = (int)src.range(20, 300);
+        for (int i = 0; i < sh.m; ++i) lens.push_back(1 + (int)(splitmix(s) % (uint64_t)maxl));
+        break;
+    }
+    }
+    long N = 0;
+    for (int l : lens) N += l;
+    sh.wide = dk >= 6;
+    sh.distinct = dk < 6 ? dk + 1 : dk == 6 ? 1000 : dk == 7 ? (int)std::max<long>(2, N / 8) : (1 << 20);
+    int shift = sh.stagger == 0 ? 0 : sh.stagger == 1 ? std::max(1, sh.distinct / 2) : sh.distinct;
+    sh.keys.resize(sh.m);
+    for (int i = 0; i < sh.m; ++i) {
+        sh.keys[i].reserve(lens[i]);
+        for (int j = 0; j < lens[i]; ++j)
+            sh.keys[i].push_back((i * shift + (int)(splitmix(s) % (uint64_t)sh.distinct)) * stride);
+    }
+    return sh;
+}
+
 template <class T, bool Ptr>
 struct ItOf;
 template <class T>
@@ -138,7 +229,66 @@ std::string show_seq(const std::vector<T>& v) {
 struct Stats {
     bool cut_multi = false, cut3 = false;
     bool quiet = false;
+    // scale targets: for tuples with more than 600 elements check a bounded sample of the ranks (see
+    // sample_ranks) instead of every rank
+    bool sample_ranks = false;
+    uint64_t rank_seed = 0;
+    bool sampled = false;    // out: the ranks were sampled
+    size_t ranks_checked = 0; // out
 };
+
+//! bounded rank sample for a big tuple: all ranks near 0 and near N, powers of two, multiples of the padded
+//! grid length and of the sequence-length prefix sums, the boundaries (and some interior points) of runs of
+//! equivalent elements of the merged order, and uniformly random ranks; each with its two neighbours.
+//! `run_starts` = ranks r in 1..N-1 where merged[r-1] is less than merged[r].
+inline std::vector<ptrdiff_t> sample_ranks(ptrdiff_t N, const std::vector<ptrdiff_t>& lens, const std::vector<ptrdiff_t>& run_starts,
+                                           uint64_t seed) {
+    std::vector<ptrdiff_t> r;
+    uint64_t s = seed;
+    auto add = [&](ptrdiff_t x) {
+        for (ptrdiff_t d = -1; d <= 1; ++d)
+            if (x + d >= 0 && x + d <= N) r.push_back(x + d);
+    };
+    for (ptrdiff_t i = 0; i <= 16 && i <= N; ++i) r.push_back(i), r.push_back(N - i);
+    for (ptrdiff_t p = 1; p <= N; p *= 2) add(p);
+    ptrdiff_t nmax = 0;
+    for (ptrdiff_t l : lens) nmax = std::max(nmax, l);
+    ptrdiff_t grid = 1;
+    while (grid < nmax + 1) grid *= 2; // the implementation pads every sequence to grid - 1 elements
+    for (ptrdiff_t g : {grid - 1, grid, grid / 2, nmax}) {
+        if (g <= 0) continue;
+        ptrdiff_t cnt = N / g;
+        for (ptrdiff_t k = 1; k <= std::min<ptrdiff_t>(cnt, 24); ++k) add(k * g);
+        for (int k = 0; k < 8 && cnt > 24; ++k) add((ptrdiff_t)(1 + splitmix(s) % (uint64_t)cnt) * g);
+    }
+    {
+        ptrdiff_t ps = 0;
+        size_t step = lens.size() <= 48 ? 1 : lens.size() / 48;
+        for (size_t i = 0; i < lens.size(); ++i) {
+            ps += lens[i];
+            if (i % step == 0) add(ps);
+        }
+    }
+    {
+        size_t nb = run_starts.size();
+        auto around = [&](size_t bi) {
+            ptrdiff_t b = run_starts[bi], e = bi + 1 < nb ? run_starts[bi + 1] : N;
+            add(b);
+            r.push_back(b + (e - b) / 2);
+            r.push_back(b + (ptrdiff_t)(splitmix(s) % (uint64_t)(e - b)));
+        };
+        if (nb <= 40)
+            for (size_t i = 0; i < nb; ++i) around(i);
+        else {
+            for (size_t i = 0; i < 6; ++i) around(i), around(nb - 1 - i);
+            for (int k = 0; k < 28; ++k) around((size_t)(splitmix(s) % nb));
+        }
+    }
+    for (int k = 0; k < 96; ++k) r.push_back((ptrdiff_t)(splitmix(s) % (uint64_t)(N + 1)));
+    std::sort(r.begin(), r.end());
+    r.erase(std::unique(r.begin(), r.end()), r.end());
+    return r;
+}
 
 //! the oracle for one tuple, all ranks
 template <class T, class Comp, bool DefaultComp, class RankT, bool Ptr>
@@ -177,16 +327,38 @@ void check_tuple(const std::vector<std::vector<int>>& keys, bool do_partition, b
         for (const T& x : data[i]) merged.push_back(M{x, i});
     std::stable_sort(merged.begin(), merged.end(), [&](const M& a, const M& b) { return comp(a.v, b.v); });
 
+    const bool big = N > 600; // messages describe a big tuple by its lengths and the neighbourhood of the split only
     if (pbt::verbose() && !st.quiet) {
-        for (int i = 0; i < m; ++i) PBT_LOG("  seq" << i << " (" << data[i].size() << ") " << show_seq(data[i]) << "\n");
+        if (!big)
+            for (int i = 0; i < m; ++i) PBT_LOG("  seq" << i << " (" << data[i].size() << ") " << show_seq(data[i]) << "\n");
+        else {
+            PBT_LOG("  N=" << N << " lengths:");
+            for (int i = 0; i < m; ++i) PBT_LOG(" " << data[i].size());
+            PBT_LOG("\n");
+        }
     }
+
+    // ranks to check: every rank, or (scale targets, big tuples) a bounded sample
+    std::vector<ptrdiff_t> ranks;
+    if (st.sample_ranks && big) {
+        std::vector<ptrdiff_t> lens, run_starts;
+        for (int i = 0; i < m; ++i) lens.push_back((ptrdiff_t)data[i].size());
+        for (ptrdiff_t r = 1; r < N; ++r)
+            if (comp(merged[r - 1].v, merged[r].v)) run_starts.push_back(r);
+        ranks = sample_ranks(N, lens, run_starts, st.rank_seed);
+        st.sampled = true;
+    } else {
+        for (ptrdiff_t r = 0; r <= N; ++r) ranks.push_back(r);
+    }
+    st.ranks_checked += ranks.size();
 
     std::vector<T> dummy(1, mk<T>(0, 0, 0));
     const It poison = ItOf<T, Ptr>::begin(dummy);
     std::vector<ptrdiff_t> expect(m, 0);
 
-    for (ptrdiff_t r = 0; r <= N; ++r) {
-        if (r > 0) ++expect[merged[r - 1].seq];
+    ptrdiff_t upto = 0; // expect[] = per-sequence counts among the first `upto` elements of the stable merge
+    for (ptrdiff_t r : ranks) {
+        while (upto < r) ++expect[merged[upto++].seq];
 
         if (do_partition) {
             std::vector<It> offs(m, poison);
@@ -203,8 +375,24 @@ void check_tuple(const std::vector<std::vector<int>>& keys, bool do_partition, b
                 for (int i = 0; i < m; ++i) os << (i ? "," : "") << o[i];
                 os << ") expected (";
                 for (int i = 0; i < m; ++i) os << (i ? "," : "") << expect[i];
-                os << "); sequences";
-                for (int i = 0; i < m; ++i) os << " " << show_seq(data[i]);
+                if (!big) {
+                    os << "); sequences";
+                    for (int i = 0; i < m; ++i) os << " " << show_seq(data[i]);
+                } else {
+                    os << "); " << m << " sequences, lengths";
+                    for (int i = 0; i < m; ++i) os << " " << data[i].size();
+                    int shown = 0;
+                    for (int i = 0; i < m && shown < 6; ++i) {
+                        if (o[i] == expect[i]) continue;
+                        ++shown;
+                        ptrdiff_t lo = std::max<ptrdiff_t>(0, std::min(o[i], expect[i]) - 3);
+                        ptrdiff_t hi = std::min<ptrdiff_t>((ptrdiff_t)data[i].size(), std::max(o[i], expect[i]) + 3);
+                        if (hi - lo > 40) hi = lo + 40;
+                        os << "; seq" << i << "[" << lo << ".." << hi << ") = {";
+                        for (ptrdiff_t j = lo; j < hi; ++j) os << (j > lo ? "," : "") << keyof(data[i][j]);
+                        os << "}";
+                    }
+                }
                 return os.str();
             };
             // 1. offsets written and inside their sequences
